@@ -40,6 +40,10 @@ def pool(tier):
           DictIncompleteValue(dict, [KVPair(K("a"), TV(int), is_required=False)]), DictIncompleteValue(dict, [KVPair(TV(str), TypeVarValue(Tv), is_many=True)]),
           AnnotatedValue(TV(int), [K("m1"), K("m2")]), AnnotatedValue(TV(int), [K("m2"), K("m1")]), AnnotatedValue(TypeVarValue(Tv), [K("meta")]),
           SequenceValue(list, [(False, TypeVarValue(Tv)), (True, TV(int))])]
+    # unions at the size where MultiValuedValue switches to its hashed fast path (10 members): nine hashable literals, so that uniting one more operand crosses the
+    # threshold; type[...] of a generic that mentions a type variable; a function literal with and without a type-variable map
+    p += [MultiValuedValue([K(i) for i in range(10, 19)]), MultiValuedValue([K(i) for i in range(10, 18)] + [K([1, 2])]), MultiValuedValue([K("s%d" % i) for i in range(9)] + [TV(bytes)]),
+          SubclassValue(GenericValue(list, [TypeVarValue(Tv)])), SubclassValue(GenericValue(dict, [TV(str), TypeVarValue(Tv)]), exactly=True)]
     if tier == "thorough":
         p += [K(2), K("b"), K([1]), K({"a": 1}), K(1j), K(frozenset()), TV(bytes), TV(complex), TV(list), TV(tuple), TV(dict), TV(type(None)),
               GenericValue(set, [TV(int)]), GenericValue(frozenset, [TV(str)]), GenericValue(tuple, [TV(int)]), GenericValue(list, [K(1)]),
